@@ -17,7 +17,7 @@ EXPLANATION = (
     "is consumption-bounded (every iteration decodes at least one value, and decoding raises at end of stream); recursion passes "
     "through deserialize_value only; no function of D repositions a stream (seek / truncate / peek), so consumption-bounded means "
     "bounded by the input size; (R2) no stream-derived integer reaches an allocation sink ([x]*n, bytes(n), bytearray(n), "
-    "list(range(n)), str*n) - a positive control keeps the rule alive; (R3) dynamic instantiation is only registry[type_id]() / "
+    "list(range(n)), str*n) - a positive control keeps the rule alive; (R3) no callable computed inside a decoder function is applied to anything, dynamic instantiation is only registry[type_id]() / "
     "deserialize_types[type_id](...) after membership tests, no eval/exec/pickle/__import__, attribute names written by setattr "
     "come from the class's own _fields; (R4) every primitive reader unpacks exactly calcsize bytes (short input raises); the 2-byte "
     "tag read is length-checked; (R5) the hello decoded before authentication is inside the server loop's containment and its "
